@@ -253,6 +253,7 @@ func (om *offsetManager) flushToBroker() {
 		return
 	}
 
+	verifGate("om.flush.sent", om.group, 0)
 	broker, err := om.coordinator()
 	if err != nil {
 		om.handleError(err)
